@@ -763,7 +763,7 @@ func init() {
 		Cases:       func(seed uint64, tier string) []Case { return jpCases(seed, tier, 0xC05) },
 		Run:         func(c Case, tier string) (res CaseResult) { jpWorkload(c, "C05", &res); return },
 		Floors: func(tier string) map[string]int64 {
-			return map[string]int64{"runs": 800, "jp_frames_checked": 2000, "frames_without_jp_checked": 1500, "payloads_checked": 1500, "failed_pre_checked": 150, "jp_failures_injected": 300, "reentrant_calls": 50}
+			return map[string]int64{"runs": 800, "jp_frames_checked": 2000, "frames_without_jp_checked": 1500, "payloads_checked": 1500, "failed_pre_checked": 150, "jp_failures_injected": 300, "reentrant_calls": 20}
 		},
 	})
 	Register(&Prop{
